@@ -64,16 +64,16 @@ type Schedule struct {
 }
 
 type gateResult struct {
-	ID        string     `json:"id"`
-	Status    string     `json:"status"` // ok | diverged | mismatch | hung
-	DivStep   int        `json:"div_step"`
-	DivDetail string     `json:"div_detail,omitempty"`
-	Mismatch  []string   `json:"mismatch,omitempty"`
-	Out       []int      `json:"out"`
-	Fired     []int64    `json:"fired"`
-	Cur       []CurEntry `json:"cur"`
-	Steps     int        `json:"steps"`
-	PruneWaitTimeouts int `json:"prune_wait_timeouts"`
+	ID                string     `json:"id"`
+	Status            string     `json:"status"` // ok | diverged | mismatch | hung
+	DivStep           int        `json:"div_step"`
+	DivDetail         string     `json:"div_detail,omitempty"`
+	Mismatch          []string   `json:"mismatch,omitempty"`
+	Out               []int      `json:"out"`
+	Fired             []int64    `json:"fired"`
+	Cur               []CurEntry `json:"cur"`
+	Steps             int        `json:"steps"`
+	PruneWaitTimeouts int        `json:"prune_wait_timeouts"`
 }
 
 type caller struct {
@@ -166,6 +166,7 @@ func execSchedule(s *Schedule, tf *traceFile) gateResult {
 		nAdded++
 		t0 := tick()
 		addDesc(set, nAdded, d)
+		tb.add(evAddB{"AddB", nAdded, d, t0})
 		tb.add(evAdd{"Add", nAdded, d, t0, tick()})
 	}
 	for i := 0; i < s.NInit; i++ {
@@ -204,6 +205,7 @@ func execSchedule(s *Schedule, tf *traceFile) gateResult {
 	observe := func(q bool) []CurEntry {
 		t0 := tick()
 		cur := listing(set)
+		tb.add(evCurB{"CurB", t0})
 		tb.add(evCurrent{"Current", cur, t0, tick(), q})
 		return cur
 	}
